@@ -115,8 +115,17 @@ CO_Tree::CO_Tree(Iterator i, const dimension_type n) {
     else {
       if (top_n == 1) {
         PPL_ASSERT(root.index() == unused_index);
+        try {
+          new(&(*root)) data_type(*i);
+        }
+        catch (...) {
+          // The destructor is not going to be called: release the elements
+          // constructed so far (the current one is still marked as unused)
+          // and the arrays.
+          destroy();
+          throw;
+        }
         root.index() = i.index();
-        new(&(*root)) data_type(*i);
         ++i;
         --stack_first_empty;
       }
